@@ -1338,8 +1338,8 @@ public:
           for (j = 0; j < dim; j++)
           {
             if (j != j1)
-              if (assignCost(i, j - 1) - v[j] < min)
-                min = assignCost(i, j - 1) - v[j - 1];
+              if (assignCost(i, j) - v[j] < min)
+                min = assignCost(i, j) - v[j];
           }
           v[j1] = v[j1] - min;
         }
